@@ -37,6 +37,8 @@ type Prog struct {
 	allFns   map[*ssa.Function]bool
 	modFns   []*ssa.Function // every module function with a body, instantiations included
 	sentFlow *sentinelFlow
+	// Forwarders lists the outlined pairs the loader collapsed (see collapseForwarders)
+	Forwarders []string
 }
 
 // Load type-checks /repo from source (no tests), builds SSA with generics instantiated.
@@ -76,6 +78,7 @@ func Load(repo string, env []string) (*Prog, error) {
 	prog.Build()
 	p.SSA = prog
 	p.allFns = ssautil.AllFunctions(prog)
+	p.collapseForwarders()
 	p.funcs = map[string]*ssa.Function{}
 	for fn := range p.allFns {
 		if k := FuncKey(fn); k != "" && inModule(fn) {
@@ -194,10 +197,169 @@ func ObjKey(f *types.Func) string {
 	return shortPkg(f.Pkg().Path()) + "." + f.Name()
 }
 
+// A pure forwarder F (`func (r T) M(a A) R { return r.m(a) }`, arguments = parameters in order, results returned as they
+// come) whose target G is referenced by nothing else is the "outline the body" refactoring: the pair behaves like G under
+// the name of F. The loader collapses it: G carries F's key and name, every call of F is redirected to G, and F is hidden
+// from the function tables. The rules are anchored on names; without this, wrapping an anchored function would turn every
+// rule on it into a report about the wrapper.
+var (
+	fwdAlias  = map[*ssa.Function]*ssa.Function{} // target -> the forwarder whose name it carries
+	fwdTarget = map[*ssa.Function]*ssa.Function{} // hidden forwarder -> target
+)
+
+func pureForwardTarget(f *ssa.Function) *ssa.Function {
+	if len(f.Blocks) != 1 || f.Parent() != nil || f.Synthetic != "" || f.Recover != nil || len(f.TypeArgs()) > 0 || f.TypeParams().Len() > 0 || len(f.AnonFuncs) > 0 || !inModule(f) {
+		return nil
+	}
+	ins := f.Blocks[0].Instrs
+	if len(ins) < 2 {
+		return nil
+	}
+	call, ok := ins[0].(*ssa.Call)
+	if !ok || call.Call.IsInvoke() {
+		return nil
+	}
+	g := call.Call.StaticCallee()
+	if g == nil || g == f || g.Blocks == nil || g.Parent() != nil || g.Synthetic != "" || g.Pkg != f.Pkg || len(g.TypeArgs()) > 0 || g.TypeParams().Len() > 0 {
+		return nil
+	}
+	if len(call.Call.Args) != len(f.Params) || !types.Identical(f.Signature, g.Signature) {
+		return nil
+	}
+	if (f.Signature.Recv() == nil) != (g.Signature.Recv() == nil) || f.Signature.Recv() != nil && !types.Identical(f.Signature.Recv().Type(), g.Signature.Recv().Type()) {
+		return nil
+	}
+	for i, a := range call.Call.Args {
+		if a != ssa.Value(f.Params[i]) {
+			return nil
+		}
+	}
+	ret, ok := ins[len(ins)-1].(*ssa.Return)
+	if !ok {
+		return nil
+	}
+	n := f.Signature.Results().Len()
+	if len(ret.Results) != n {
+		return nil
+	}
+	switch {
+	case n == 0:
+		if len(ins) != 2 {
+			return nil
+		}
+	case n == 1:
+		if len(ins) != 2 || ret.Results[0] != ssa.Value(call) {
+			return nil
+		}
+	default:
+		if len(ins) != 2+n {
+			return nil
+		}
+		for i, rv := range ret.Results {
+			ex, ok := rv.(*ssa.Extract)
+			if !ok || ex.Tuple != ssa.Value(call) || ex.Index != i {
+				return nil
+			}
+		}
+	}
+	return g
+}
+
+func (p *Prog) collapseForwarders() {
+	refs := map[*ssa.Function]int{}
+	var fns []*ssa.Function
+	// AllFunctions leaves out the methods of types that no reachable code uses; the module's declared functions are added
+	// to the tables further down in Load, so the forwarders among them count here too
+	every := map[*ssa.Function]bool{}
+	var walk func(fn *ssa.Function)
+	walk = func(fn *ssa.Function) {
+		if fn == nil || every[fn] {
+			return
+		}
+		every[fn] = true
+		for _, a := range fn.AnonFuncs {
+			walk(a)
+		}
+	}
+	for fn := range p.allFns {
+		walk(fn)
+	}
+	for path, pk := range p.All {
+		if path != modPath && !strings.HasPrefix(path, modPath+"/") || pk.TypesInfo == nil {
+			continue
+		}
+		for _, o := range pk.TypesInfo.Defs {
+			if f, ok := o.(*types.Func); ok {
+				walk(p.SSA.FuncValue(f))
+			}
+		}
+	}
+	for fn := range every {
+		fns = append(fns, fn)
+		if strings.HasPrefix(fn.Synthetic, "wrapper for") {
+			continue // the pointer-receiver wrapper every value method has: not a use in the source
+		}
+		for _, b := range fn.Blocks {
+			for _, in := range b.Instrs {
+				for _, op := range in.Operands(nil) {
+					if g, ok := (*op).(*ssa.Function); ok {
+						refs[g]++
+					}
+				}
+			}
+		}
+	}
+	sort.Slice(fns, func(i, j int) bool { return fns[i].String() < fns[j].String() })
+	for _, f := range fns {
+		if g := pureForwardTarget(f); g != nil && refs[g] == 1 && fwdAlias[g] == nil {
+			fwdAlias[g] = f
+			fwdTarget[f] = g
+			p.Forwarders = append(p.Forwarders, f.String()+" -> "+g.String())
+		}
+	}
+	if len(fwdTarget) == 0 {
+		return
+	}
+	for _, fn := range fns {
+		for _, b := range fn.Blocks {
+			for _, in := range b.Instrs {
+				if fwdTarget[fn] != nil {
+					continue
+				}
+				// calls and function values alike
+				for _, op := range in.Operands(nil) {
+					if f, ok := (*op).(*ssa.Function); ok && fwdTarget[f] != nil {
+						*op = forwardEnd(f)
+					}
+				}
+			}
+		}
+	}
+}
+
+// forwardEnd follows hidden forwarders to the function that holds the body.
+func forwardEnd(fn *ssa.Function) *ssa.Function {
+	for i := 0; i < 8 && fwdTarget[fn] != nil; i++ {
+		fn = fwdTarget[fn]
+	}
+	return fn
+}
+
+// fnName is the name a function goes by: its own, or that of the forwarder it was outlined from.
+func fnName(fn *ssa.Function) string {
+	for i := 0; i < 8 && fwdAlias[fn] != nil; i++ {
+		fn = fwdAlias[fn]
+	}
+	return fn.Name()
+}
+
 // FuncKey names an SSA function; closures are "<parent>$n".
 func FuncKey(fn *ssa.Function) string {
-	if fn == nil {
+	if fn == nil || fwdTarget[fn] != nil {
 		return ""
+	}
+	for i := 0; i < 8 && fwdAlias[fn] != nil; i++ {
+		fn = fwdAlias[fn]
 	}
 	if fn.Parent() != nil {
 		pk := FuncKey(fn.Parent())
@@ -534,7 +696,7 @@ func (p *Prog) Callees(c ssa.CallInstruction) []*ssa.Function {
 		// program (library API): resolve to the generic origin methods of the same package with the same name
 		if n, ok := types.Unalias(cc.Value.Type()).(*types.Named); ok && n.TypeArgs().Len() > 0 && n.Obj().Pkg() != nil {
 			for _, fn := range p.modFns {
-				if len(fn.TypeArgs()) > 0 || fn.Signature.Recv() == nil || fn.Name() != cc.Method.Name() {
+				if len(fn.TypeArgs()) > 0 || fn.Signature.Recv() == nil || fnName(fn) != cc.Method.Name() {
 					continue
 				}
 				if pk := fnPkg(fn); pk == nil || pk.Path() != n.Obj().Pkg().Path() {
@@ -546,6 +708,9 @@ func (p *Prog) Callees(c ssa.CallInstruction) []*ssa.Function {
 				}
 			}
 		}
+	}
+	for i, fn := range out {
+		out[i] = forwardEnd(fn) // an interface call lands in a hidden forwarder: its body is the target's
 	}
 	sort.Slice(out, func(i, j int) bool { return out[i].String() < out[j].String() })
 	return out
